@@ -366,9 +366,11 @@ impl World for C19 {
     fn enumerated(&self, tier: Tier) -> u64 {
         // one uniformity case per (case, constructor) arm in the quick tier: Standard, new, new_inclusive,
         // sample_single, sample_single_inclusive, plus the nominal full range through new and new_inclusive
+        // (two drawn ranges per arm in the quick tier, four in the thorough tier: a density that is only wrong for
+        // some ranges — low end above zero, lightness range on one side of the bicone's middle — needs more than one)
         let per_case = match tier {
-            Tier::Quick => UNIFORMITY_ARMS,
-            Tier::Thorough => UNIFORMITY_ARMS * 3,
+            Tier::Quick => UNIFORMITY_ARMS * 2,
+            Tier::Thorough => UNIFORMITY_ARMS * 4,
         };
         self.cases.len() as u64 * per_case
     }
